@@ -59,7 +59,9 @@ pub enum WOp {
 	SerFail(u32),
 }
 
-pub const ITER_ASKS: [&str; 7] = ["size_hint", "len", "count", "last", "next", "collect_rest", "fused_next_x2"];
+pub const ITER_ASKS: [&str; 13] = [
+	"size_hint", "len", "count", "last", "next", "collect_rest", "fused_next_x2", "fold_rest", "for_each_rest", "nth", "skip_collect", "step_by", "reduce_last",
+];
 
 #[derive(Clone, Debug, Serialize, Deserialize)]
 pub struct Case {
@@ -290,6 +292,59 @@ where
 				return Err(format!("rest after {k} = {rest:?}, model {expect_rest:?}"));
 			}
 		}
+		// the adaptors and consumers a specialised iterator is tempted to override: they must honour what was consumed
+		7 => {
+			let rest: Vec<T> = it.fold(Vec::new(), |mut v, x| {
+				v.push(x.clone());
+				v
+			});
+			if rest != expect_rest {
+				return Err(format!("fold over the rest after {k} visits {rest:?}, model {expect_rest:?}"));
+			}
+		}
+		8 => {
+			let mut rest: Vec<T> = Vec::new();
+			it.for_each(|x| rest.push(x.clone()));
+			if rest != expect_rest {
+				return Err(format!("for_each over the rest after {k} visits {rest:?}, model {expect_rest:?}"));
+			}
+		}
+		9 => {
+			let j = ((k as usize) * 7 + 1) % (r + 2);
+			let x = it.nth(j).cloned();
+			let want = expect_rest.get(j).cloned();
+			if x != want {
+				return Err(format!("nth({j}) after consuming {k} = {x:?}, model {want:?}"));
+			}
+			let y = it.next().cloned();
+			let want = expect_rest.get(j + 1).cloned();
+			if y != want {
+				return Err(format!("next() after nth({j}) after consuming {k} = {y:?}, model {want:?}"));
+			}
+		}
+		10 => {
+			let j = ((k as usize) * 5 + 2) % (r + 2);
+			let rest: Vec<T> = it.skip(j).cloned().collect();
+			let want: Vec<T> = expect_rest.iter().skip(j).cloned().collect();
+			if rest != want {
+				return Err(format!("skip({j}) after consuming {k} yields {rest:?}, model {want:?}"));
+			}
+		}
+		11 => {
+			let st = 1 + (k as usize) % 3;
+			let rest: Vec<T> = it.step_by(st).cloned().collect();
+			let want: Vec<T> = expect_rest.iter().step_by(st).cloned().collect();
+			if rest != want {
+				return Err(format!("step_by({st}) after consuming {k} yields {rest:?}, model {want:?}"));
+			}
+		}
+		12 => {
+			let l = it.reduce(|_, b| b).cloned();
+			let want = expect_rest.last().cloned();
+			if l != want {
+				return Err(format!("reduce(keep the later) after consuming {k} = {l:?}, model {want:?}"));
+			}
+		}
 		_ => {
 			for _ in 0..r {
 				it.next();
@@ -365,7 +420,7 @@ pub fn run_case<T: Elem>(case: &Case, stats: &mut Stats) -> Vec<Violation> {
 			"steady"
 		};
 		let opk = match op {
-			WOp::Iter { dir, ask, .. } => format!("iter{dir}:{}", ITER_ASKS[(*ask as usize).min(6)]),
+			WOp::Iter { dir, ask, .. } => format!("iter{dir}:{}", ITER_ASKS[(*ask as usize).min(ITER_ASKS.len() - 1)]),
 			WOp::Rebuild(h) => format!("rebuild{h}"),
 			WOp::Corrupt(c) => format!("corrupt:{}", format!("{c:?}").split('(').next().unwrap_or("")),
 			o => format!("{o:?}").split('(').next().unwrap_or("").to_string(),
@@ -472,7 +527,7 @@ pub fn run_case<T: Elem>(case: &Case, stats: &mut Stats) -> Vec<Violation> {
 					_ => iter_ask((&w).into_iter(), k, *ask, &rest),
 				});
 				let name = ["iter", "iter_rev", "into_iter"][(*dir as usize).min(2)];
-				let askn = ITER_ASKS[(*ask as usize).min(6)];
+				let askn = ITER_ASKS[(*ask as usize).min(ITER_ASKS.len() - 1)];
 				match r {
 					Ok(Ok(())) => {}
 					Ok(Err(d)) => out.push(
@@ -833,7 +888,7 @@ fn gen_ops(r: &mut Rng, n: u64, tier: Tier, faults: bool) -> Vec<WOp> {
 					WOp::Iter {
 						dir: r.below(3) as u8,
 						k,
-						ask: r.below(7) as u8,
+						ask: r.below(13) as u8,
 					}
 				}
 			});
